@@ -251,9 +251,9 @@ def tryIntoI32 (e : Int) : Option Int :=
 /-- utils.rs `write_number`. -/
 def writeNumber {F : Type} (ops : NumOps F) : NumLit F → List UInt8
   | .decimal x exponent =>
-    if ops.isNaN x then strBytes "(0/0)"
+    if ops.isNaN x then [40, 48, 47, 48, 41]                       -- "(0/0)"
     else if ops.isInf x then
-      strBytes "(" ++ (if ops.signNeg x then strBytes "-" else []) ++ strBytes "1/0)"
+      [40] ++ (if ops.signNeg x then [45] else []) ++ [49, 47, 48, 41]   -- "({}1/0)"
     else
       match (exponent.map (·.1)).bind tryIntoI32 with
       | some e =>
